@@ -31,7 +31,9 @@ def run(run):
     quick = run.depth == "quick"
     stats = collections.Counter()
     mism = []
-    proj = E.small_project(rng, h, nfiles=2)
+    # several entities on one line: a rule has more than one finding at one file and line
+    twin = "class Twin { void t(int a) { int u = a; int w = a + 1; emit(u); emit(w); if (a > 1) { emit(a); } if (a > 2) { emit(a); } } void emit(int x) { } }\n"
+    proj = E.small_project(rng, h, nfiles=2, extra={"src/Twin.java": twin})
     tmp = C.scratch("c17")
     try:
         kinds = [k for k in QG.KINDS_DEFAULT if proj.by_kind.get(k)]
@@ -73,7 +75,10 @@ def run(run):
                     text = "\n".join(hl + [rng.choice(BAD)]) + "\n"
                     rules.append((rel, text, meta, None))
                 else:
-                    if shared and rng.random() < 0.6:
+                    if case < 2 and i == 3:
+                        # always: a rule without WHERE over a kind that has several entities on one line
+                        q = QG.random_query(rng, kinds=[["variable_declaration", "method_invocation"][case]], values=proj.values, depth=0, n_preds=0, n_entities=1, where=False)
+                    elif shared and rng.random() < 0.6:
                         q = QG.random_query(rng, kinds=[shared[0]], values=proj.values, depth=1, n_preds=1, n_entities=1)
                         old = q.preds[0].name
                         q.preds[0].name = shared[1]
@@ -90,7 +95,8 @@ def run(run):
                         # a literal that spans lines is the recorded finding of the rule-file readers (C18): not the subject here
                         q = QG.random_query(rng, kinds=kinds, values=proj.values, depth=1, n_preds=rng.choice([0, 0, 1]), n_entities=1)
                     # now and then the header of an earlier rule of the ruleset, copied as it is (only the query differs)
-                    r = GR.rule_file(rng, q, head=rng.choice(heads) if heads and rng.random() < 0.35 else None)
+                    forced = GR.header(rng, "\n", note=True) if (case < 2 and i == 3) else None      # always: a note between header and query
+                    r = GR.rule_file(rng, q, head=forced if forced else (rng.choice(heads) if heads and rng.random() < 0.35 else None))
                     text, meta = r
                     heads.append(r.head)
                     stats["copied_header_rules"] += int(len(heads) > 1 and r.head[0] in [h_[0] for h_ in heads[:-1]])
